@@ -22,7 +22,7 @@ FLAVOR_PIDS = [22, -6, -5, -4, -3, -2, -1, 21, 1, 2, 3, 4, 5, 6]
 RULE = (
     "states = (FNS x NfFF, target spelling, card flavour legacy/modern, operation sequence of length <= L over {update, Runner, Runner+get_result, run_yadism, update(update)}) applied to the same dict objects; "
     "after every operation: caller's theory and observables dicts (recursively: values, types, order and identity of nested lists/dicts/arrays) equal the snapshot taken before the first operation; "
-    "update is idempotent; every Output echoes the given cards, the sorted unique grid, the 14 flavour-basis pids and the projectile code; two results from the same dicts are bit-identical; "
+    "update is idempotent; no Output shares a mutable object with the caller's cards or with a later Output of the same runner (identity check + in-place edit of the returned cards); every Output echoes the given cards, the sorted unique grid, the 14 flavour-basis pids and the projectile code; two results from the same dicts are bit-identical; "
     "non-trivial = sequence length >= 2 or the FNS rewrites thresholds"
 )
 ASSUMPTIONS = [
@@ -149,6 +149,61 @@ def _norm(o):
     return o
 
 
+def _containers(o, acc=None):
+    """ids of every mutable container reachable from o."""
+    if acc is None:
+        acc = {}
+    if isinstance(o, dict):
+        acc[id(o)] = o
+        for v in o.values():
+            _containers(v, acc)
+    elif isinstance(o, (list, tuple)):
+        if isinstance(o, list):
+            acc[id(o)] = o
+        for v in o:
+            _containers(v, acc)
+    elif isinstance(o, np.ndarray):
+        acc[id(o)] = o
+    return acc
+
+
+def _alias_path(o, ids, path="$"):
+    """first path inside o that is one of the objects `ids` (shared mutable object), else None."""
+    if isinstance(o, (dict, list, np.ndarray)) and id(o) in ids:
+        return path
+    if isinstance(o, dict):
+        for k, v in o.items():
+            r = _alias_path(v, ids, f"{path}.{k}")
+            if r:
+                return r
+    elif isinstance(o, (list, tuple)):
+        for i, v in enumerate(o):
+            r = _alias_path(v, ids, f"{path}[{i}]")
+            if r:
+                return r
+    return None
+
+
+def _scribble(out):
+    """the caller annotates / edits the cards recorded in an Output it owns (in place, at every nesting level)."""
+    for card in (out.theory, out.observables):
+        if not isinstance(card, dict):
+            continue
+        stack = [card]
+        seen = set()
+        while stack:
+            c = stack.pop()
+            if id(c) in seen:
+                continue
+            seen.add(id(c))
+            if isinstance(c, dict):
+                stack.extend(v for v in c.values() if isinstance(v, (dict, list)))
+                c["__annotation__"] = "edited by the owner of the Output"
+            elif isinstance(c, list):
+                stack.extend(v for v in c if isinstance(v, (dict, list)))
+                c.append("__annotation__")
+
+
 def _states_base(tier, seed):
     out = []
     for (fns, nf), tkey, flavour in itertools.product(FNS, TARGETS, ["legacy", "modern"]):
@@ -247,7 +302,8 @@ def execute(st):
             elif op == "runner":
                 yadism.Runner(t, o)
             elif op == "result":
-                out = yadism.Runner(t, o).get_result()
+                rn = yadism.Runner(t, o)
+                out = rn.get_result()
             elif op == "run":
                 out = yadism.run_yadism(t, o)
         except Exception as e:
@@ -265,6 +321,26 @@ def execute(st):
                 viol.append(_v(st, "output-echo", f"after operation {i} ({op}) of {st['seq']}: {'; '.join(probs[:3])} (FNS={st['fns']}, {st['flavour']} card)"))
                 break
             digs.append(yrun.out_digest(out))
+            # the Output is a record, not a view: it shares no mutable object with the caller's cards (else a later in-place edit of the cards by their
+            # owner rewrites the record, and an annotation of the record rewrites the caller's cards), nor with a later Output of the same runner
+            mine = _containers(t)
+            _containers(o, mine)
+            ap = _alias_path(out.theory, mine, "Output.theory") or _alias_path(out.observables, mine, "Output.observables") or _alias_path({k: v for k, v in out.items()}, mine, "Output")
+            if ap:
+                viol.append(_v(st, "output-aliases-input", f"after operation {i} ({op}) of {st['seq']}: {ap} IS an object of the caller's cards (shared, not recorded): editing either side in place rewrites the other (FNS={st['fns']}, {st['flavour']} card, target {st['target']})"))
+                break
+            _scribble(out)
+            d = _diff(snap_t, _snap(t), "theory") or _diff(snap_o, _snap(o), "observables")
+            if d:
+                viol.append(_v(st, "input-modified", f"after operation {i} ({op}) of {st['seq']} editing the returned Output's cards in place modified the caller's card: {d} (FNS={st['fns']} NfFF={st['nfff']}, {st['flavour']} card, target {st['target']})"))
+                break
+            if op == "result":
+                out_b = rn.get_result()
+                ntr += 1
+                probs = _check_output(st, out_b, t0n, o0n, o)
+                if probs or yrun.out_digest(out_b) != digs[-1]:
+                    viol.append(_v(st, "output-shared-between-results", f"after operation {i} ({op}) of {st['seq']}: a second get_result() of the same runner, after the first Output's cards were edited in place by its owner, gives {'; '.join(probs[:2]) or 'other values'} (FNS={st['fns']}, {st['flavour']} card)"))
+                    break
     if len(set(digs)) > 1:
         viol.append(_v(st, "results-differ", f"results computed from the same dict objects differ within {st['seq']} (FNS={st['fns']})"))
     return {"violations": viol[:1], "nontrivial": len(st["seq"]) >= 2 or st["fns"] != "ZM-VFNS", "outcome": digest([digs, st["fns"], st["nfff"], st["target"], st["flavour"]]), "transitions": ntr}
